@@ -642,9 +642,15 @@ func (k *kase) runSession(ctx context.Context, si int) bool {
 	if len(errs) > 0 {
 		// The statement is about frames that were written; a session that reports an error
 		// the single-node store does not is not judged further, but it is worth a note.
-		k.h.Inconclusive("dist-writer-error-not-in-reference")
-		fmt.Printf("NOTE: C07 case %d session %d (gateway %d, route %s): distributed writer reported %v while the single-node store accepted the same script\n",
-			k.c, si, ss.Gateway, k.routeClass(ss.Gateway, leased, len(free) > 0), errs)
+		// "Frames written through a writer opened on any node, to channels leased to any mix
+		// of nodes, are stored ..." and read back like a single-node store given the same
+		// writes: a session the single-node store accepts in full and the cluster refuses
+		// (no fault is injected anywhere) leaves the two apart. Never seen on the unchanged
+		// tree in 20 000-case runs; seeded change C07-4 produces it for every writer over
+		// {local, free} or {remote, free} channels.
+		route := k.routeClass(ss.Gateway, leased, len(free) > 0)
+		k.violate("c07:legal-session-refused:"+route,
+			fmt.Sprintf("session %d (gateway %d, route %s): the distributed writer reported %v while the single-node store accepted the same script", si, ss.Gateway, route, errs))
 		return false
 	}
 	// uncommitted tail (no final commit) is discarded on both sides
